@@ -609,7 +609,11 @@ class t2data(object):
             outfile.write_values(vals, 'rocks1')
             if rt.nad is not None:
                 if rt.nad >= 1:
-                    outfile.write_value_line(rt.__dict__, 'rocks1.1')
+                    # blank fields are read as the rock type's default (zero) values:
+                    vals = dict(rt.__dict__)
+                    for key in ['compressibility', 'expansivity', 'dry_conductivity', 'tortuosity']:
+                        if vals.get(key) is None: vals[key] = 0.0
+                    outfile.write_value_line(vals, 'rocks1.1')
                     if rt.nad >= 2:
                         vals = [rt.relative_permeability['type'], None] + \
                                rt.relative_permeability['parameters']
@@ -656,6 +660,9 @@ class t2data(object):
         paramw = copy(self.parameter)
         if paramw['print_block'] is not None:
             paramw['print_block'] = unfix_blockname(paramw['print_block'])
+        for key in ['tstart', 'const_timestep', 'gravity']:
+            # blank fields are read as the default (zero) values:
+            if paramw[key] is None: paramw[key] = default_parameters[key]
         self.parameter['_option_str'] = ''.join([str(m) for m in self.parameter['option'][1:]])
         spec = ['param1', 'param1_autough2'][self.type == 'AUTOUGH2']
         outfile.write_value_line(self.parameter, spec)
@@ -696,8 +703,9 @@ class t2data(object):
                     if val is not None: self.parameter['timestep'].append(val)
 
     def write_timesteps(self, outfile):
-        if self.parameter['const_timestep'] < 0.0:
-            nlines = -int(self.parameter['const_timestep'])
+        const_timestep = self.parameter['const_timestep']
+        if const_timestep is not None and const_timestep < 0.0:
+            nlines = -int(const_timestep)
             for i in range(nlines):
                 i1, i2 = i * 8, min((i + 1) * 8, len(self.parameter['timestep']))
                 vals = self.parameter['timestep'][i1: i2]
@@ -1229,7 +1237,7 @@ class t2data(object):
         """Reads selection parameters from file"""
         int_selec = infile.read_values('selec1')
         self.selection['integer'] = int_selec
-        nlines = int_selec[0]
+        nlines = int_selec[0] or 0
         float_selec = []
         for i in range(nlines): float_selec += infile.read_values('selec2')
         self.selection['float'] = float_selec
@@ -1238,7 +1246,7 @@ class t2data(object):
         if self.selection:
             outfile.write('SELEC\n')
             outfile.write_values(self.selection['integer'], 'selec1')
-            nlines = self.selection['integer'][0]
+            nlines = self.selection['integer'][0] or 0
             for i in range(nlines):
                 i1, i2 = i * 8, min((i + 1) * 8, len(self.selection['float']))
                 vals = self.selection['float'][i1: i2]
